@@ -543,7 +543,7 @@ class TEBDWorld(World):
             raise Skip()
         want = self.model.ordered_term(*where)
         d = maxdiff(np.asarray(G), want)
-        if not d <= 1e-10:
+        if not d <= 1e-10 * max(1.0, float(np.abs(want).max())):
             raise Violation("C11/get_gate" + (":reversed" if op.get("rev") else ""),
                             f"get_gate({where}) differs from the term for that ordered pair by {d:.3g}")
         self.note("gate_ok")
@@ -562,7 +562,9 @@ class TEBDWorld(World):
             cur = cur.reshape(2, 2, 2, 2).transpose(1, 0, 3, 2).reshape(4, 4)
         want = sla.expm(x * cur)
         d = maxdiff(np.asarray(U), want)
-        if not d <= 1e-9:
+        # (relative: after repeated scaling of the terms the entries of the
+        # exponential reach 1e7 and more)
+        if not d <= 1e-9 * max(1.0, float(np.abs(want).max())):
             raise Violation("C11/get_gate:reversed" if op.get("rev") else "C11/expm_stale",
                             f"get_gate_expm({where}, {x}) != expm(x * current term for that ordered pair), max|diff|={d:.3g}")
         self.stats.probe("expm_checks")
@@ -586,7 +588,7 @@ class TEBDWorld(World):
             if nrm > 1e-12:
                 Lg = sla.logm(np.asarray(U))
                 lam = np.vdot(cur, Lg) / np.vdot(cur, cur)
-                if not maxdiff(sla.expm(lam * cur), np.asarray(U)) <= 1e-8:
+                if not maxdiff(sla.expm(lam * cur), np.asarray(U)) <= 1e-8 * max(1.0, float(np.abs(np.asarray(U)).max())):
                     raise Violation("C11/trotter_gate", f"gate on {where} is not an exponential of its term")
         tot = {}
         for U, where in gates:
